@@ -1017,14 +1017,15 @@ async fn fetch_after_abandoned(query: &Message<Vec<u8>>, msgs: &[Vec<u8>], keep:
             s.write_all(&f).await.is_ok()
         }
         let Some(r1) = read_req(&mut server).await else { return };
-        for m in to_send.iter().take(keep) {
+        // (one message more than the caller will take: it arrives after the caller has let go)
+        for m in to_send.iter().take(keep + 1) {
             if !send(&mut server, m, &r1).await {
                 return;
             }
         }
         // the second request arrives while the first stream is still under way
         let Some(r2) = read_req(&mut server).await else { return };
-        for m in to_send.iter().skip(keep) {
+        for m in to_send.iter().skip(keep + 1) {
             if !send(&mut server, m, &r1).await {
                 return;
             }
@@ -1056,6 +1057,7 @@ async fn fetch_after_abandoned(query: &Message<Vec<u8>>, msgs: &[Vec<u8>], keep:
             }
             // given up
         }
+        tokio::time::sleep(std::time::Duration::from_millis(30)).await;
         let Ok(req2) = RequestMessageMulti::new(query.clone()) else { break 'done "request refused".to_string() };
         let mut g2 = SendRequestMulti::send_request(&conn, req2);
         loop {
@@ -1610,7 +1612,8 @@ fn one_case(c: &mut Ctx, rt: &tokio::runtime::Runtime, fam: &str, idx: u64) {
                 }
             }
             // ... and once more behind a transfer that was given up half-way on the same connection
-            if msgs.len() >= 3 {
+            // (a real pause is part of it: one packaging in eight)
+            if msgs.len() >= 3 && (k.idx as usize).wrapping_mul(7).wrapping_add(msgs.len() * 3 + msgs[0].len()) % 8 == 0 {
                 let keep = 1 + (k.idx as usize + msgs.len()) % (msgs.len() - 2);
                 match ctx::catch(|| rt.block_on(fetch_after_abandoned(&query, &msgs, keep))) {
                     Err(pi) => k.viol(&format!("panic:{}", pi.site()), &format!("panic in the stream client fetching a {} transfer behind an abandoned one: {} at {}:{}", kind, pi.msg, pi.file, pi.line)),
